@@ -83,6 +83,7 @@ func TestVerifC01Approved(t *testing.T) {
 	defer srv.Close()
 	base := t.TempDir()
 	rapid.Check(t, func(t *rapid.T) {
+		defer vuProcessZone(t)()
 		scn := vgen.UploadCase(t, vgen.FileOpts{StrictOS: true, BigValues: true, AllowBad: rapid.IntRange(0, 3).Draw(t, "allowBad") == 0})
 		dir := vuFreshDir(base)
 		defer os.RemoveAll(dir)
